@@ -556,7 +556,7 @@ pub fn judge_c12(cx: &DeliveryCtx, out: &mut RunOut) {
             _ => out.violate("C12", "undecodable-body-is-invalid-body-encoding-400", format!("reference: {}, library: {}; {}", r.name(), cx.out.short(), ctx_line(cx))),
         }
     }
-    judge_component(cx, out, "C12", "fold-merges-losslessly-else-body-hashed", &[Rule::BodyCharset, Rule::BodyEncoding], false);
+    judge_component(cx, out, "C12", "fold-merges-losslessly-else-body-hashed", &[Rule::BodyCharset, Rule::BodyEncoding], true);
     if baseline_ok(cx, out) {
         judge_canonical(cx, out, &["C12"]);
     }
